@@ -10,7 +10,7 @@ Structural necessary conditions, decided on symbolic index polynomials (r_slotmo
   (scatter)  assemble stores residue i at index i * N (constant coefficient of component i) and copies c1 to
              data[K*N ..] (the second polynomial).
 """
-from facts import walk, callee, strip, local_of, root_local
+from facts import walk, callee, strip, local_of, root_local, Defs
 from r_slotmod import Sym, padd, pmul, pconst, patom, pshow
 
 R = "R-LWEPAIR"
@@ -256,4 +256,51 @@ def run_packmeta(facts, rep):
                           "compares it across its inputs; the data of the odd half is moved through a scratch ciphertext cloned from "
                           "the first input, so it is combined under the first input's `%s`: inputs that differ in it are accepted and "
                           "the packed values are wrong" % (fld, fld), facts.loc(pack))
+    return n
+
+
+def run_packshift(facts, rep):
+    """R-LWEPAIR(shift) [N]: in layer j of the packing butterfly the odd half is multiplied by X^(N / 2^(j+1)) — N being the
+    RING DEGREE.  The amount handed to negacyclic_shift_ps must therefore be `D >> (layer + 1)` (or `D / 2^(layer+1)`) with D
+    resolving to the ring degree (poly_modulus_degree) and not to a quantity derived from the number of inputs (the padded
+    count 2^l equals N only when more than N/2 ciphertexts are packed — the one case the suite exercises)."""
+    RS = "R-LWEPAIR(shift)"
+    rep.rule(RS, "the butterfly's shift amount is (ring degree) >> (layer + 1): its left operand resolves to poly_modulus_degree, "
+             "not to a count of inputs")
+    pack = [p for p in facts.hir if p.endswith("::pack_lwe_ciphertexts")]
+    if not rep.anchor(RS, "pack_lwe_ciphertexts", bool(pack)):
+        return 0
+    p = pack[0]
+    rep.fn(p)
+    body = facts.inlined(p)
+    defs = Defs(body)
+    it = facts.items[p]
+    lw = {prm["pat"]["lid"] for prm in it["params"] if prm["pat"].get("k") == "PBind" and "LWECiphertext" in prm.get("ty", "")}
+    calls = [x for x in walk(body) if x.get("k") == "Call" and (callee(x) or {}).get("name", "").startswith("negacyclic_shift")
+             and len(x["args"]) >= 2]
+    n = 0
+    for k, c in enumerate(calls):
+        # only shifts inside a loop (the butterfly), not the extraction shift
+        n += 1
+        key = "pack/shift#%d" % k
+        e = strip(c["args"][1])
+        for _ in range(4):
+            lo = local_of(e)
+            if lo and len(defs.defs.get(lo[0], [])) == 1:
+                e = strip(defs.defs[lo[0]][0])
+            else:
+                break
+        if not (e.get("k") == "Bin" and e.get("op") in (">>", "/")):
+            rep.unresolved(RS, key, "shift amount is not of the form D >> (layer + 1)", facts.loc(p, c))
+            continue
+        cl = list(defs.closure(e["a"]))
+        degree = any(y.get("k") == "MCall" and y.get("name") in ("poly_modulus_degree", "coeff_count") for y in cl)
+        count = any(y.get("k") == "MCall" and y.get("name") == "len" and (root_local(y["recv"]) or (None,))[0] in lw for y in cl)
+        if degree and not count:
+            rep.ok(RS, key, "shift = (ring degree) >> (layer + 1)", facts.loc(p, c), sample={"call": k})
+        elif count or not degree:
+            rep.violation(RS, key, "the butterfly shifts the odd half by an amount whose base %s: for fewer than N/2 + 1 inputs the "
+                          "padded count is smaller than the ring degree and the second half of every pair lands at the wrong "
+                          "coefficients" % ("derives from the number of inputs instead of the ring degree" if count else
+                                            "does not resolve to the ring degree"), facts.loc(p, c))
     return n
